@@ -183,7 +183,7 @@ def make_judges(ctx):
 
 def floors(tier):
     cells = [('rel', m, 'bound') for m in G.ROUNDINGS] + [('rel', 'around', 'tie-even')]
-    cells += [('monotone', m) for m in G.ROUNDINGS] + [('idempotent-noflag', m) for m in G.ROUNDINGS] + [('idempotent-indexed',)]
+    cells += [('monotone', m) for m in G.ROUNDINGS] + [('idempotent-noflag', m) for m in G.ROUNDINGS] + [('idempotent-indexed',), ('restore-int',)]
     return cells
 
 
@@ -220,6 +220,22 @@ def run_case(case, ctx):
             y = Fxp(None, s, w, nf, rounding=r, overflow=o)
             for v in vals.tolist()[:: max(1, len(vals) // 16)]:
                 y(v)
+            if nf <= 0:
+                # the same with values given as python integers (integer value type; with n_frac < 0 every value is a multiple of 2^-n_frac):
+                # reading the object and storing what was read must leave every code where it was
+                ints = [int(c) * (1 << -nf) for c in range(lo, hi + 1)]
+                for xi in (Fxp(ints, s, w, nf, rounding=r, overflow=o), Fxp(ints[len(ints) // 3], s, w, nf, rounding=r, overflow=o), Fxp(np.array(ints), s, w, nf, rounding=r, overflow=o)):
+                    before = np.asarray(xi.val, dtype=object).tolist()
+                    xi.reset()
+                    xi(xi())
+                    xi.set_val(xi.get_val())
+                    after = np.asarray(xi.val, dtype=object).tolist()
+                    if before != after or any(xi.status[f] for f in ('overflow', 'underflow', 'inaccuracy')):
+                        ctx.violation('restore_changed', 'fxp-%s%d/%d %s/%s built from python integers: x(x()) changed the codes %r -> %r (status %s)' % (
+                            's' if s else 'u', w, nf, r, o, before if not isinstance(before, list) else before[:4], after if not isinstance(after, list) else after[:4],
+                            {f: xi.status[f] for f in ('overflow', 'underflow', 'inaccuracy')}))
+                    ctx.judged(('restore-int', s, w, nf, r, o), True, None)
+                    ctx.floor_hit(('restore-int',))
         return
     rng = ctx.rng_for(k, case['i'])
     s, w, nf = G.core_format(rng)
